@@ -2471,7 +2471,8 @@ def sparse_matmul(x1: SparseMatrix, x2: Array) -> SparseMatmul:
             or x2.shape == ()):
         raise ValueError("scalars not allowed as arguments to sparse_matmul")
 
-    if x2.shape[0] != x1.shape[1]:
+    from pytato.utils import are_shape_components_equal
+    if not are_shape_components_equal(x2.shape[0], x1.shape[1]):
         raise ValueError("argument shapes are incompatible")
 
     if isinstance(x1, CSRMatrix):
@@ -2594,8 +2595,11 @@ def concatenate(arrays: Sequence[Array], axis: int = 0) -> Array:
     def shape_except_axis(ary: Array) -> ShapeType:
         return ary.shape[:axis] + ary.shape[axis+1:]
 
+    from pytato.utils import are_shapes_equal
+
     for array in arrays[1:]:
-        if shape_except_axis(array) != shape_except_axis(arrays[0]):
+        if not are_shapes_equal(shape_except_axis(array),
+                                shape_except_axis(arrays[0])):
             raise ValueError("arrays must have the same shape except along"
                     f" dimension #{axis}.")
 
